@@ -3,21 +3,36 @@ TASK_MODULES = ["pyvc.tasks_layer1", "pyvc.tasks_c07", "pyvc.tasks_c16", "pyvc.t
 
 L1_ALL = ["layer1/Circuit." + m for m in ("type", "is_output", "fanin", "fanout", "nodes", "edges", "connect", "disconnect", "remove",
                                           "set_output", "set_type", "outputs", "inputs", "io", "startpoints", "endpoints", "uid", "add[default]", "add[uid]")]
+# Every function's contract is verified ONCE, under the property whose statement it details (its home):
+#   construction API -> C07, read-only queries -> C12, copy -> C19, splice (add_subcircuit / add_blackbox bodies) -> C06.
+# A property whose proof calls such a function uses the contract and names it as a dependency (DEPENDS_ON): a change
+# that breaks connect is reported by C07's check, not by every property whose proof happens to call connect.
 PROPERTY_TASKS = {
-    "C07": ["layer1/Circuit.connect", "layer1/Circuit.disconnect", "layer1/Circuit.remove", "layer1/Circuit.set_output",
-            "layer1/Circuit.type", "layer1/Circuit.fanin", "layer1/Circuit.fanout", "layer1/Circuit.uid",
-            "layer1/Circuit.add[default]", "layer1/Circuit.add[uid]",
+    "C07": ["layer1/Circuit.connect", "layer1/Circuit.disconnect", "layer1/Circuit.remove", "layer1/Circuit.set_output", "layer1/Circuit.set_type",
+            "layer1/Circuit.uid", "layer1/Circuit.add[default]", "layer1/Circuit.add[uid]",
             "C07/connect", "C07/disconnect", "C07/remove", "C07/set_output", "C07/add[default]", "C07/add[uid]"],
-    "C12": ["layer1/Circuit.fanin", "layer1/Circuit.fanout", "layer1/Circuit.startpoints", "layer1/Circuit.endpoints",
+    "C12": ["layer1/Circuit.type", "layer1/Circuit.is_output", "layer1/Circuit.nodes", "layer1/Circuit.edges", "layer1/Circuit.io",
+            "layer1/Circuit.fanin", "layer1/Circuit.fanout", "layer1/Circuit.startpoints", "layer1/Circuit.endpoints",
             "layer1/Circuit.inputs", "layer1/Circuit.outputs"],
-    "C01": ["C01/cnf", "C01/add_assumptions", "C01/solve[no assumptions]", "C01/solve[assumptions]", "layer1/Circuit.type", "layer1/Circuit.fanin", "layer1/Circuit.nodes"],
-    "C04": ["C04/miter[self,default]", "C04/miter[pair,default]", "C04/miter[pair,explicit]", "C04/miter-encoding-lemma",
-            "layer1/Circuit.add[default]", "layer1/Circuit.connect", "layer1/Circuit.startpoints", "layer1/Circuit.endpoints"],
+    "C01": ["C01/cnf", "C01/add_assumptions", "C01/solve[no assumptions]", "C01/solve[assumptions]"],
+    "C04": ["C04/miter[self,default]", "C04/miter[pair,default]", "C04/miter[pair,explicit]", "C04/miter-encoding-lemma"],
     "C13": ["C13/clog2"],
-    "C16": ["C16/remove_unloaded", "layer1/Circuit.remove", "layer1/Circuit.fanin", "layer1/Circuit.fanout", "layer1/Circuit.type", "layer1/Circuit.is_output"],
-    "C20": ["C20/lint", "layer1/Circuit.type", "layer1/Circuit.fanin", "layer1/Circuit.fanout", "layer1/Circuit.is_output", "layer1/Circuit.nodes"],
-    "C19": [t for t in L1_ALL if "add[" not in t and "connect" not in t] + ["layer1/Circuit.copy"],  # exact-view contracts of the read-only methods
+    "C16": ["C16/remove_unloaded"],
+    "C20": ["C20/lint"],
+    "C19": ["layer1/Circuit.copy"],
 }
+QUERIES = "type is_output nodes edges io fanin fanout startpoints endpoints inputs outputs".split()
+DEPENDS_ON = {
+    "C01": [("Circuit." + m, "C12") for m in ("type", "fanin", "nodes")],
+    "C04": [("Circuit.add", "C07"), ("Circuit.connect", "C07"), ("Circuit.startpoints", "C12"), ("Circuit.endpoints", "C12"),
+            ("Circuit.add_subcircuit (literal name, no connections)", "C06")],
+    "C16": [("Circuit.remove", "C07")] + [("Circuit." + m, "C12") for m in ("fanin", "fanout", "type", "is_output")],
+    "C20": [("Circuit." + m, "C12") for m in ("type", "fanin", "fanout", "is_output", "nodes")],
+    "C06": [("Circuit.connect", "C07"), ("Circuit.add", "C07"), ("Circuit.remove", "C07"), ("Circuit.set_type", "C07"), ("Circuit.set_output", "C07"),
+            ("Circuit.inputs", "C12"), ("Circuit.outputs", "C12")],
+    "C07": [("Circuit." + m, "C12") for m in ("type", "fanin", "fanout", "inputs", "outputs")] + [("Circuit.add_subcircuit / add_blackbox (body == contract)", "C06")],
+}
+
 
 def _c19_frame_tasks():
     from pyvc import tasks_c19
@@ -55,10 +70,9 @@ PROPERTY_TASKS["C19"] = PROPERTY_TASKS["C19"] + _c19_frame_tasks()
 TASK_FILES["C19"] = "circuitgraph/tx.py"
 
 L2_TASKS = ["layer2/add_subcircuit[no connections]", "layer2/add_subcircuit[no connections,literal name]", "layer2/add_subcircuit[no connections,strip_io=False]", "layer2/add_subcircuit[1 connection]"]
-PROPERTY_TASKS["C04"] = PROPERTY_TASKS["C04"] + L2_TASKS[:2]
 L2_BB = ["layer2/add_blackbox[no connections]"]
-PROPERTY_TASKS["C06"] = L2_TASKS + L2_BB + ["layer1/Circuit.copy", "C07/fill_blackbox on the body"]
-PROPERTY_TASKS["C07"] = PROPERTY_TASKS["C07"] + L2_TASKS + L2_BB + ["C07/add_blackbox", "C07/add_subcircuit[no connections]", "C07/add_subcircuit[1 connection]",
-                                                                      "C07/add_blackbox[connections] on the body", "C07/add_subcircuit[connections] on the body",
-                                                                      "C07/fill_blackbox on the body", "C07/set_output[list] on the body"]
+PROPERTY_TASKS["C06"] = L2_TASKS + L2_BB
+PROPERTY_TASKS["C07"] = PROPERTY_TASKS["C07"] + ["C07/add_blackbox", "C07/add_subcircuit[no connections]", "C07/add_subcircuit[1 connection]",
+                                                 "C07/add_blackbox[connections] on the body", "C07/add_subcircuit[connections] on the body",
+                                                 "C07/fill_blackbox on the body", "C07/set_output[list] on the body"]
 TASK_FILES["layer2"] = "circuitgraph/circuit.py"
